@@ -39,9 +39,9 @@ func (c cfgSpec) has(a int) bool {
 }
 
 type tokSpec struct {
-	reload int  // index of the load during which the request is in flight (accepted before it)
-	addr   int  // address it is sent to
-	rel    byte // release point: p s t r d
+	load int  // index of the load during which the request is in flight (accepted before it)
+	addr int  // address it is sent to
+	rel  byte // release point: p s t r d
 }
 
 type scenario struct {
@@ -75,24 +75,59 @@ func (s snapshot) String() string {
 		b = append(b, digit(s.pool[a]))
 	}
 	for u := 0; u < nUnix; u++ {
-		f := byte('0')
-		if s.file[u] {
-			f = '1'
-		}
-		b = append(b, digit(s.pool[nTCP+u]), digit(s.ucnt[u]), f)
+		b = append(b, s.unixTriple(u)...)
 	}
 	return string(b)
 }
 
+func (s snapshot) unixTriple(u int) []byte {
+	f := byte('0')
+	if s.file[u] {
+		f = '1'
+	}
+	return []byte{digit(s.pool[nTCP+u]), digit(s.ucnt[u]), f}
+}
+
+// of is the part of the snapshot that concerns address a.
+func (s snapshot) of(a int) string {
+	if isUnix(a) {
+		return string(s.unixTriple(a - nTCP))
+	}
+	return string(digit(s.pool[a]))
+}
+
 type event struct {
-	kind  byte   // L R D (main markers)  P S E T C (callbacks)  B X (bind / close)  A F (in-flight accepted / finished)
-	gen   int    // generation (index of the config in the sequence) the event belongs to
-	mod   string // module (a b h0 w0 e started stopping), address name for B/X, token id for A/F
+	kind  byte   // L R D (main markers)  P S E T C (callbacks)  B X (bind / close)  W J (swap / rejected)  A F (in-flight accepted / finished)
+	gen   int    // generation (= index of the config in the sequence) the event belongs to; load index for L R D W J
+	mod   string // module (a b h0 w0 e started stopping), address name for B/X, token id for A/F, result for R
+	addr  int    // B X A
+	load  int    // load in progress when the event was recorded
 	snap  snapshot
 	snap2 snapshot // X: after the close
 	ans   [nAddr]string
 	hold  [nAddr][]int // harness-side: generations with an open (wrapped, not yet closed) listener, at snapshot time
 	res   string       // F: answer of the in-flight request
+}
+
+func (ev *event) probed() bool { return ev.ans[0] != "" }
+
+func (ev *event) String() string {
+	head := fmt.Sprintf("%c.%d", ev.kind, ev.gen)
+	switch ev.kind {
+	case 'W', 'J':
+		return head
+	case 'L', 'D':
+		return head + ":" + ev.snap.String() + ":" + strings.Join(ev.ans[:], "")
+	case 'B':
+		return head + "." + ev.mod + ":" + ev.snap.String()
+	case 'X':
+		return head + "." + ev.mod + ":" + ev.snap.String() + ":" + ev.snap2.String()
+	case 'A':
+		return head + "." + ev.mod + "." + addrNames[ev.addr]
+	case 'F':
+		return head + "." + ev.mod + ":" + ev.res
+	}
+	return head + "." + ev.mod + ":" + ev.snap.String() + ":" + strings.Join(ev.ans[:], "")
 }
 
 type token struct {
@@ -104,6 +139,7 @@ type token struct {
 	started  bool
 	released bool
 	acceptor int
+	result   string
 }
 
 type runner struct {
@@ -119,7 +155,10 @@ type runner struct {
 	hi, lo  atomic.Int64 // generations that may legitimately answer right now: lo..hi
 	loading int          // index of the load in progress
 	curGen  int          // generation of the running config (-1: none)
+	swapped bool
 	firstP  map[int]bool
+	linger  [nUnix]bool // a dropped unix socket was seen accepting without answering; not probed again until rebound
+	results []string    // per load: ok err same
 
 	tokMu  sync.Mutex
 	tokens map[string]*token
@@ -133,7 +172,12 @@ type runner struct {
 func (r *runner) fail(class, what string) {
 	r.failMu.Lock()
 	defer r.failMu.Unlock()
-	if len(r.fails) < 20 {
+	for _, f := range r.fails {
+		if f.Class == class && len(r.fails) >= 3 {
+			return
+		}
+	}
+	if len(r.fails) < 12 {
 		r.fails = append(r.fails, core.Failure{Class: class, What: what})
 	}
 }
@@ -164,10 +208,13 @@ func (r *runner) holdersLocked() (h [nAddr][]int) {
 	return
 }
 
-const probeTimeout = 2 * time.Second
+const (
+	probeTimeout = 2 * time.Second
+	deadTimeout  = 150 * time.Millisecond // address nobody holds: refused/ENOENT arrive at once, only a lingering socket makes us wait
+)
 
 func (r *runner) record(kind byte, gen int, mod string, probe bool) *event {
-	ev := &event{kind: kind, gen: gen, mod: mod}
+	ev := &event{kind: kind, gen: gen, mod: mod, load: r.loading}
 	r.evMu.Lock()
 	ev.snap = r.snapshot()
 	ev.hold = r.holdersLocked()
@@ -175,16 +222,41 @@ func (r *runner) record(kind byte, gen int, mod string, probe bool) *event {
 	r.evMu.Unlock()
 	if probe {
 		for a := 0; a < nAddr; a++ {
-			ans, _, _ := r.env.get(a, "/id", probeTimeout)
-			ev.ans[a] = ans
+			held := len(ev.hold[a]) > 0
+			switch {
+			case !held && isUnix(a) && r.linger[a-nTCP]:
+				ev.ans[a] = "-"
+			case !held:
+				ans, _, _ := r.env.get(a, "/id", deadTimeout)
+				if ans == ansTimeout && isUnix(a) {
+					r.linger[a-nTCP] = true
+				}
+				ev.ans[a] = ans
+			default:
+				ev.ans[a], _, _ = r.env.get(a, "/id", probeTimeout)
+			}
 		}
 	}
 	return ev
 }
 
+func (r *runner) mark(kind byte, k int) {
+	ev := &event{kind: kind, gen: k, load: r.loading}
+	r.evMu.Lock()
+	ev.snap = r.snapshot()
+	ev.hold = r.holdersLocked()
+	r.events = append(r.events, ev)
+	r.evMu.Unlock()
+}
+
 // callback is entered from inside Provision / Start / Stop / Cleanup / event handlers of
 // the probe modules, i.e. on the goroutine that is executing caddy.Load.
 func (r *runner) callback(kind byte, gen int, mod string) error {
+	if kind == 'E' && mod == "stopping" && !r.swapped && gen == r.curGen && r.loading < len(r.sc.cfgs) {
+		// the old config is told to stop: the swap has just happened
+		r.swapped = true
+		r.mark('W', r.loading)
+	}
 	r.record(kind, gen, mod, true)
 	switch {
 	case kind == 'P' && !r.firstP[gen]:
@@ -212,7 +284,10 @@ func (r *runner) bound(gen int, ln net.Listener) net.Listener {
 	}
 	r.open[a][gen]++
 	r.opened[gen]++
-	ev := &event{kind: 'B', gen: gen, mod: addrNames[a]}
+	if isUnix(a) {
+		r.linger[a-nTCP] = false
+	}
+	ev := &event{kind: 'B', gen: gen, mod: addrNames[a], addr: a, load: r.loading}
 	ev.snap = r.snapshot()
 	ev.hold = r.holdersLocked()
 	r.events = append(r.events, ev)
@@ -226,7 +301,7 @@ func (r *runner) bound(gen int, ln net.Listener) net.Listener {
 func (r *runner) closing(l *probeListener) error {
 	r.evMu.Lock()
 	defer r.evMu.Unlock()
-	ev := &event{kind: 'X', gen: l.gen, mod: addrNames[l.addr]}
+	ev := &event{kind: 'X', gen: l.gen, mod: addrNames[l.addr], addr: l.addr, load: r.loading}
 	ev.snap = r.snapshot()
 	err := l.Listener.Close()
 	ev.snap2 = r.snapshot()
@@ -236,6 +311,9 @@ func (r *runner) closing(l *probeListener) error {
 	r.events = append(r.events, ev)
 	return err
 }
+
+// rejecting is entered from the Start of the probe app that is about to fail.
+func (r *runner) rejecting(gen int) { r.mark('J', gen) }
 
 // ---- in-flight requests
 
@@ -252,7 +330,7 @@ func (r *runner) blockHere(id string, gen int) {
 	}
 	select {
 	case <-t.release:
-	case <-time.After(10 * time.Second):
+	case <-time.After(20 * time.Second):
 	}
 }
 
@@ -261,21 +339,23 @@ func (r *runner) startTokens(load int) {
 		t := t
 		t.started = true
 		go func() {
-			ans, _, detail := r.env.get(t.spec.addr, "/block/"+t.id, 8*time.Second)
+			ans, _, detail := r.env.get(t.spec.addr, "/block/"+t.id, 25*time.Second)
 			t.done <- [2]string{ans, detail}
 		}()
 		select {
 		case g := <-t.accepted:
 			t.acceptor = g
 			ev := r.record('A', g, t.id, false)
-			_ = ev
+			ev.addr = t.spec.addr
 		case d := <-t.done:
 			t.acceptor = -1
 			t.released = true
+			t.result = d[0]
 			r.fail("inflight-not-accepted", fmt.Sprintf("request %s to %s before load %d was not accepted: %s %s", t.id, addrNames[t.spec.addr], load, d[0], d[1]))
 		case <-time.After(3 * time.Second):
 			t.acceptor = -1
 			t.released = true
+			t.result = ansTimeout
 			r.fail("inflight-not-accepted", fmt.Sprintf("request %s to %s before load %d was not accepted within 3s", t.id, addrNames[t.spec.addr], load))
 		}
 	}
@@ -285,13 +365,17 @@ func (r *runner) tokensOf(load int) []*token {
 	var out []*token
 	r.tokMu.Lock()
 	for _, t := range r.tokens {
-		if t.spec.reload == load {
+		if t.spec.load == load {
 			out = append(out, t)
 		}
 	}
 	r.tokMu.Unlock()
 	sort.Slice(out, func(i, j int) bool { return out[i].id < out[j].id })
 	return out
+}
+
+func isGenChar(s string) bool {
+	return len(s) == 1 && (s[0] >= '0' && s[0] <= '9' || s[0] >= 'A' && s[0] <= 'Z')
 }
 
 func (r *runner) releaseAt(point byte) {
@@ -307,16 +391,17 @@ func (r *runner) releaseAt(point byte) {
 			ev.res = d[0]
 			if d[0] != genChar(t.acceptor) {
 				cls := "inflight-lost"
-				if len(d[0]) == 1 && d[0] != ansRefused && d[0] != ansNoEnt && d[0] != ansBroken && d[0] != ansTimeout {
+				if isGenChar(d[0]) {
 					cls = "inflight-answered-by-other-config"
 				}
 				r.fail(cls, fmt.Sprintf("request %s accepted by config %d on %s before load %d, released at %c: client got %q %s",
-					t.id, t.acceptor, addrNames[t.spec.addr], t.spec.reload, point, d[0], d[1]))
+					t.id, t.acceptor, addrNames[t.spec.addr], t.spec.load, point, d[0], d[1]))
 			}
 		case <-time.After(4 * time.Second):
 			ev.res = ansTimeout
 			r.fail("inflight-lost", fmt.Sprintf("request %s accepted by config %d, released at %c: no response within 4s", t.id, t.acceptor, point))
 		}
+		t.result = ev.res
 	}
 }
 
@@ -376,11 +461,7 @@ func (r *runner) configJSON(gen int, c cfgSpec) []byte {
 func (r *runner) dump() string {
 	var sb strings.Builder
 	for i, ev := range r.events {
-		fmt.Fprintf(&sb, "%3d %c g%d %-9s %s", i, ev.kind, ev.gen, ev.mod, ev.snap)
-		if ev.kind == 'X' {
-			fmt.Fprintf(&sb, ">%s", ev.snap2)
-		}
-		fmt.Fprintf(&sb, " ans=%s hold=%v %s\n", strings.Join(ev.ans[:], ","), ev.hold, ev.res)
+		fmt.Fprintf(&sb, "%3d [%d] %-40s hold=%v\n", i, ev.load, ev.String(), ev.hold)
 	}
 	return sb.String()
 }
